@@ -453,6 +453,12 @@ struct NormalWriter {
 impl fmt::Write for NormalWriter {
     /// Must never fail.
     fn write_str(&mut self, string: &str) -> fmt::Result {
+        #[cfg(lace_verif)]
+        crate::verif::stdout(&if self.minimal {
+            Decolored::new(string).to_string()
+        } else {
+            string.to_string()
+        });
         if self.minimal {
             print!("{}", Decolored::new(string));
         } else {
@@ -475,6 +481,14 @@ struct DebuggerWriter {
 impl fmt::Write for DebuggerWriter {
     /// Must never fail.
     fn write_str(&mut self, string: &str) -> fmt::Result {
+        #[cfg(lace_verif)]
+        if self.category != Category::Special {
+            crate::verif::stderr(&if self.minimal {
+                Decolored::new(string).to_string()
+            } else {
+                string.to_string()
+            });
+        }
         let color = match self.category {
             Category::Normal => debugger_colors::PRIMARY,
             Category::Info => debugger_colors::PRIMARY,
